@@ -850,7 +850,7 @@ def eq_kernels(start_id):
         return {"k": "int", "v": v}
     def lit_str(v):
         return {"k": "str", "v": v}
-    for tyname in ("int", "str", "bool", "tup", "rec", "uni", "uni0", "sl"):
+    for tyname in ("int", "str", "bool", "tup", "rec", "uni", "uni0", "sl", "recuni", "tupuni"):
         for equal in (True, False):
             for op in ("=", "<>"):
                 for fl, fr in itertools.product(("lit", "var", "call"), repeat=2):
@@ -882,6 +882,19 @@ def eq_kernels(start_id):
                             a = {"k": "ctor", "union": un, "case": cs[1]["n"], "arg": {"k": "none"}}
                             b = a if equal else {"k": "ctor", "union": un, "case": cs[0]["n"], "arg": pay(2)}
                         mt = ("uni", un)
+                    elif tyname in ("recuni", "tupuni"):
+                        # a record / tuple holding a union whose case carries a slice: not a scalar however its Go type looks
+                        cs = [{"n": "P%dCa" % pid[0], "p": True}, {"n": "P%dCb" % pid[0], "p": False}]
+                        types = [{"k": "union", "name": un, "cases": cs, "ptypes": [("sl", INT), None]}]
+                        uv = lambda v: {"k": "ctor", "union": un, "case": cs[0]["n"], "arg": {"k": "slice", "es": [lit_int(1), lit_int(v)]}}
+                        if tyname == "recuni":
+                            types.append({"k": "record", "name": rn, "fields": ["A", "v"], "ftypes": [INT, ("uni", un)]})
+                            mk = lambda v: {"k": "rec", "name": rn, "fields": [{"n": "A", "e": lit_int(1)}, {"n": "v", "e": uv(v)}]}
+                            mt = ("rec", rn)
+                        else:
+                            mk = lambda v: {"k": "tuple", "es": [lit_str("x"), uv(v)]}
+                            mt = ("tup", (STR, ("uni", un)))
+                        a, b = mk(2), mk(2 if equal else 3)
                     else:
                         a = {"k": "slice", "es": [lit_int(1), lit_int(2)]}
                         b = {"k": "slice", "es": [lit_int(1), lit_int(2 if equal else 3)]}
